@@ -393,6 +393,10 @@ def qobj_corr(ctx, rng, good, n):
         else:
             z = rng.choice([2, -1, 1j, 0.5, 1 + 2j])
             sw = rng.random() < 0.5
+            if op == "swap" and arr_a.shape[0] == arr_a.shape[1] and rng.random() < 0.6:
+                # a Hermitian matrix (also with different row / column labels)
+                arr_a = arr_a + arr_a.conj().T
+                qa = qutip.Qobj(arr_a, dims=da).to(rng.choice(["dense", "csr", "dia"]))
             if op == "inv" and arr_a.shape[0] == arr_a.shape[1]:
                 # make the operand safely invertible (exact small integers)
                 arr_a = arr_a + 9 * np.eye(arr_a.shape[0])
@@ -401,8 +405,11 @@ def qobj_corr(ctx, rng, good, n):
                 "inv": ("qobj_inv x", lambda qa=qa: qa.inv(), lambda a=arr_a: np.linalg.inv(a)),
                 "mul": ("qobj_same x", lambda qa=qa, z=z: qa * z, lambda a=arr_a, z=z: a * z),
                 "same": ("qobj_same x", lambda qa=qa: -qa.conj(), lambda a=arr_a: -a.conj()),
+                # history: the cached flags are read before dag() half of the time
+                # (dag() has a shortcut for cached-Hermitian objects)
                 "swap": ("qobj_swap x",
-                         lambda qa=qa, sw=sw: qa.dag() if sw else qa.trans().conj(),
+                         lambda qa=qa, sw=sw, z=z: ((qa.isherm, qa.isunitary) if z in (2, -1, 1j) else None,
+                                                   qa.dag() if sw else qa.trans().conj())[1],
                          lambda a=arr_a: a.conj().T),
                 "pow": ("qobj_pow x", lambda qa=qa: qa ** 2, lambda a=arr_a: a @ a),
                 "proj": ("qobj_proj x", lambda qa=qa: qa.proj(),
